@@ -16,6 +16,20 @@ CHECKS = {
             "reports whether it ran. Held on the pairs listed in the evidence, nothing more.",
             "Trusts Python's issubclass/hasattr and the transcription of docs/types.md in vf/tx.py.",
             "DESIGN.md §4 C13"),
+    "C14": ("exploration",
+            "runtime monitor in generated method bodies vs an independent subtype model for passed type objects",
+            "Each call passes classes / parametrised generics / nested parametrisations / typing.Any next to ordinary "
+            "values; the method that is entered (or the error kind) is compared with an independent model of "
+            "type[...] applicability and preference. Held on the calls listed in the evidence.",
+            "Trusts issubclass on origins and typing.get_origin/get_args; Any inside annotations is out of scope.",
+            "DESIGN.md §4 C14"),
+    "C08": ("exploration",
+            "runtime monitor: method-id-tagged result trees vs a reference interpreter over the derivation graph",
+            "Random copy/variant/mixin graphs with walker and leaf methods are called on nested inputs on every node; "
+            "each result tree names the method that produced every node of the tree, and must equal the tree a "
+            "reference interpreter computes on the called node's own effective table.",
+            "Parameter types are unambiguous builtin chains (resolution itself is C02's matter).",
+            "DESIGN.md §4 C08"),
 }
 
 PENDING_REASON = ("check not built yet in this session (runtime-monitoring design exists in DESIGN.md §4); "
